@@ -130,9 +130,6 @@ theorem filter_indexedFrom_getElem (l : List Op) (k t : Nat) (h : t < l.length) 
       · simpa using this
       · simpa using this
 
-/-- number of creating ops before time `t` -/
-def cnt (script : List Op) (t : Nat) : Nat := ((script.take t).filter isC).length
-
 theorem nthIdx_of_created (script : List Op) (t : Nat) (h : t < script.length) (hc : isC script[t] = true) :
     nthIdx script isC (cnt isC script t) = some t := by
   have := filter_indexedFrom_getElem isC script 0 t h hc
